@@ -4,7 +4,8 @@
 From AV Require Import Base.Util Model.Consumer Proofs.ConsumerBase Proofs.ConsumerFrame Proofs.ConsumerC13
   Proofs.ConsumerStop Proofs.ConsumerStopOk Proofs.ConsumerC13Top Proofs.ConsumerInv Proofs.ConsumerShut Proofs.ConsumerRun
   Proofs.ConsumerFuel Proofs.ConsumerShutFlags Proofs.ConsumerNotStarted Proofs.ConsumerFuelEnoughStop
-  Proofs.ConsumerFuelEnough Proofs.ConsumerFuelEnoughLoop Proofs.ConsumerFuelEnoughRun Proofs.ConsumerShutInvNC.
+  Proofs.ConsumerFuelEnough Proofs.ConsumerFuelEnoughLoop Proofs.ConsumerFuelEnoughRun Proofs.ConsumerShutInvNC Proofs.ConsumerShutInvRC
+  Proofs.ConsumerShutInv.
 Open Scope Z_scope.
 
 (* In EVERY state in which stop() can be called (not already inside stop(), not inside the auto-commit timer callback
@@ -89,6 +90,27 @@ Theorem C13_stop_clears_shutdown_partial : forall fuel s s' o,
   s_shutting s' = false /\ s_shutd s' = false.
 Proof. exact stop_clears. Qed.
 Print Assumptions C13_stop_clears_shutdown_partial.
+
+(* stop() never raises: in EVERY state with a start Deferred whose retry timer is not stale (not already fired or cancelled:
+   ConsumerInv.j3 says so of every reachable state with _stopping clear), whoever calls it - the application, the processor,
+   the end of a shutdown.  Proved without the reachable-state invariant: nothing that runs under _stopping touches the
+   retry timer (Proofs/ConsumerShutInvRC.v). *)
+Theorem C13_stop_never_raises : forall fuel s r s' o,
+  run fuel KStop s = (r, s', o) -> fuel_ok o = true -> s_startd s <> None -> rcall_stale s = false -> r = Ok tt.
+Proof. exact stop_returns_ok. Qed.
+Print Assumptions C13_stop_never_raises.
+(* ... and it preserves consistent shutdown bookkeeping (Fe: _shuttingdown set exactly while the shutdown Deferred is pending;
+   Hc: then the continuation is registered on the processor result or among the commit waiters) together with the base
+   facts it needs (Base: no block in progress => no processor result awaited; a stale retry timer => not started or
+   stopping); a shutdown Deferred already cleared stays cleared; the block in progress is kept or the consumer is stopped.
+   This is the stop() step of the reachable-state invariant that would remove the hypothesis of
+   C13_stop_clears_shutdown_partial; the steps for the other methods are not all proved. *)
+Theorem C13_stop_preserves_shutdown_bookkeeping : forall fuel s r s' o,
+  run fuel KStop s = (r, s', o) -> fuel_ok o = true -> Base s -> s_stopping s = false ->
+  Base s' /\ MBs s s' /\ (s_proc s = None -> s_proc s' = None) /\ s_stopping s' = false /\
+  (Fe s -> Hc s -> Fe s' /\ Hc s') /\ (s_shutd s = false -> s_shutd s' = false) /\ (s_startd s <> None -> r = Ok tt).
+Proof. exact stop_sb. Qed.
+Print Assumptions C13_stop_preserves_shutdown_bookkeeping.
 
 (* graceful shutdown waits for the processing in progress: shutdown() while a processor result is awaited cancels, sends
    and reports nothing; the processor result stays awaited and now carries shutdown's continuation (run when it arrives:
